@@ -57,6 +57,7 @@ func runC12(c *Ctx) {
 	}
 	c.R.Floor("R-C12-1", 20)
 	c12Fields(c, reach)
+	c12Identity(c)
 	c12Granularity(c, reach)
 	c12Absent(c)
 	c12Report(c)
@@ -470,4 +471,54 @@ func callersPassing(c *Ctx, fn *ssa.Function, v ssa.Value) []string {
 		}
 	}
 	return out
+}
+
+// c12Identity (R-C12-6): lifetimes of a prefix or route are compared only
+// between options that describe the same prefix or route: every path that
+// reports a lifetime inconsistency has established equal Prefix and
+// PrefixLength (and, for routes, equal Preference) for the pair.
+func c12Identity(c *Ctx) {
+	for _, spec := range []struct {
+		fn   string
+		need []string
+	}{
+		{"checkPrefixes", []string{"Prefix", "PrefixLength"}},
+		{"checkRoutes", []string{"Prefix", "PrefixLength", "Preference"}},
+	} {
+		f := c.needFunc("R-C12-6", "internal/corerad", spec.fn)
+		if f == nil {
+			continue
+		}
+		fn := c.fname(f)
+		n := 0
+		for _, p := range c.pathsO("R-C12-6", f, an.PathOpts{EmitCut: true}) {
+			pushes := callsOnPath(p, func(cc *ssa.CallCommon) bool { return an.CallIs(cc, PkgCorerad, "problems", "push") })
+			if len(pushes) == 0 {
+				continue
+			}
+			n++
+			eq := map[string]bool{}
+			for _, a := range p.Atoms {
+				x, y, op, ok := effCmp(a)
+				if !ok || op != token.EQL {
+					continue
+				}
+				fx, fy := terminalField(x), terminalField(y)
+				if fx == fy && sideOf(x) >= 0 && sideOf(y) >= 0 && sideOf(x) != sideOf(y) {
+					eq[fx] = true
+				}
+			}
+			var missing []string
+			for _, k := range spec.need {
+				if !eq[k] {
+					missing = append(missing, k)
+				}
+			}
+			c.R.Check(len(missing) == 0, "R-C12-6", fn+":reports-only-for-matching-pair@"+lastAtomName(p), fn, c.pos(pushes[0].Pos()),
+				fmt.Sprintf("equalities established before the report: %v; missing: %v", keysOf(eq), missing),
+				"a lifetime inconsistency is reported only for options with equal "+strings.Join(spec.need, ", "),
+				"lifetimes of different prefixes/routes are compared: a consistent router is reported (or the matching pair is skipped)")
+		}
+		c.R.Check(n >= 1, "R-C12-6", fn+":report-paths", fn, c.pos(f.Pos()), fmt.Sprintf("%d reporting path(s)", n), ">= 1", "anchor-missing")
+	}
 }
